@@ -3,6 +3,7 @@ package main
 import (
 	"bytes"
 	"fmt"
+	"os"
 	"reflect"
 	"strings"
 
@@ -675,7 +676,7 @@ func runC09(h *hz.H) {
 		h.Eval(true, 2)
 		return
 	}
-	types := enum.TypesMatching("")
+	types := enum.TypesMatching(os.Getenv("VERIF_TYPES"))
 	if len(types) < 5 {
 		h.InternalError("vacuous: too few pulsar types")
 		return
